@@ -31,6 +31,22 @@ def dim_term(d):
     return T("dim", d)
 
 
+def is_ragged(d):
+    return isinstance(d, Dim) and d.c == 0 and len(d.lin) == 1 and isinstance(d.lin[0][0], tuple) and d.lin[0][0][0] == "ragged"
+
+
+def ragged_fix(shape, elem_term):
+    """a list of arrays whose extent differs per element (marked ('ragged', name) in the list's
+    shape): the extent of one element is an opaque integer tied to that element"""
+    if shape is None:
+        return None
+    return tuple(Dim(0, {("t", T("rowsof", elem_term)): 1}) if is_ragged(d) else d for d in shape)
+
+
+def ragged(name):
+    return Dim(0, {("ragged", name): 1})
+
+
 def int_of_dim(d, labels=frozenset()):
     d = Dim.of(d)
     if d.is_const():
@@ -701,6 +717,8 @@ def subscript(interp, base, idx, st, node):
     term = T("getitem", base.term, idx.term)
     if base.kind in ("arr", "list", "tuple"):
         shape = index_shape(interp, base, idx, st, node)
+        if base.kind == "list" and shape is not None and any(is_ragged(d) for d in shape):
+            shape = ragged_fix(shape, term)
         if base.kind == "arr" and _is_basic_index(idx):
             orig, loc = base.orig, base.loc
         else:
@@ -786,7 +804,8 @@ def loop_element(interp, it, lid, st):
     if it.kind in ("list", "tuple") :
         i = V("int", T("lv", lid), shape=(), labels=labels)
         sh = shape_of(it)
-        x = V("unk" if sh is None else "arr", T("getitem", it.term, i.term), labels=labels, orig=it.orig, shape=(tuple(sh[1:]) if sh is not None else None))
+        et = T("getitem", it.term, i.term)
+        x = V("unk" if sh is None else "arr", et, labels=labels, orig=it.orig, shape=(ragged_fix(tuple(sh[1:]), et) if sh is not None else None))
         if x.kind == "arr":
             x.loc = fresh_id()
         return x
